@@ -1119,6 +1119,8 @@ func main() {
 	lap("tags")
 	skeletonCases(o)
 	lap("skeleton")
+	utagsCases(o)
+	lap("utags")
 	var hs []hostile
 	hs = append(hs, frames(o)...)
 	hs = append(hs, fields(o)...)
